@@ -44,5 +44,8 @@ def run_endpoint(ctx):
             ctx.violations.append({"sig": ("endpoint%s:reject:%s:after:%s" % (conc, ev, prev)) if um else "endpoint%s:invariant" % conc,
                                    "what": "%s: %s" % (what, lines[k] if k < len(lines) else ""),
                                    "detail": {"kind": "trace", "module": module, "connection": lines[start:k + 3][-40:]}, "job": module})
-    return {"endpoint_connections": r["evaluations"], "endpoint_events_validated": r["counters"].get("events", 0), "endpoint_model_states": mc["distinct"],
+    # the same composition over QUIC (EndpointQuic.tla): rules after the handshake with the handshake's random
+    import h3_jobs
+    quic = h3_jobs.h3_endpoint_job(ctx)
+    return {"quic": quic, "endpoint_connections": r["evaluations"], "endpoint_events_validated": r["counters"].get("events", 0), "endpoint_model_states": mc["distinct"],
             "endpoint_concurrent_events_validated": r["counters"].get("events_concurrent", 0), "endpoint_n_model_states": mcn["distinct"]}
